@@ -187,9 +187,34 @@ _STOP = None          # multiprocessing.Event: set when --fast-fail hits
 _KNOWN = []
 
 
+_COV = None
+
+
+def _cov_start():
+    """Developer mode (tools/covmap.py): VERIF_COV=<data file prefix> records
+    which lines of the odl tree the generated cases execute. Off by default;
+    never used by a registered command."""
+    global _COV
+    if not os.environ.get('VERIF_COV') or _COV is not None:
+        return
+    import coverage
+    _COV = coverage.Coverage(
+        data_file=os.environ['VERIF_COV'], data_suffix=True,
+        include=[os.path.join(core.odl_root(), 'odl', '*')])
+    _COV.start()
+
+
+def _cov_save():
+    if _COV is not None:
+        _COV.stop()
+        _COV.save()
+        _COV.start()
+
+
 def _init_worker(stop, known):
     global _STOP, _KNOWN
     _STOP, _KNOWN = stop, known
+    _cov_start()
 
 
 class _CaseTimeout(BaseException):
@@ -252,6 +277,7 @@ def _worker(args):
                 one(desc)
 
             test()
+        _cov_save()
         return stats
     except BaseException:  # noqa
         s = Stats()
